@@ -213,7 +213,12 @@ Section Serde.
       match vs with
       | [] => None
       | v :: r =>
-          match de_payload deny (v_det v) j with
+          (* a struct VARIANT of an untagged enum is only read from an object
+             (serde_derive's untagged path has no positional form; observed) *)
+          match (match v_det v, j with
+                 | VStruct _, JArr _ => None
+                 | vd, _ => de_payload deny vd j
+                 end) with
           | Some x => Some (REnum i x)
           | None => de_untagged deny r (S i) j
           end
@@ -244,8 +249,8 @@ Section Serde.
                   | Some (i, v) =>
                       let rest := remove_key tg kvs in
                       match v_det v with
-                      | VSimple => if deny && negb (Nat.eqb (length rest) 0) then None
-                                   else Some (REnum i RUnit)
+                      | VSimple => Some (REnum i RUnit)   (* other members are ignored, even under
+                                                             deny_unknown_fields (observed) *)
                       | VItem t => option_map (REnum i) (de t (JObj rest))
                       | VStruct ps => option_map (REnum i) (de_struct_body ps deny (JObj rest))
                       | VTuple _ => None
